@@ -5,11 +5,11 @@ package wallet
 // consensus' spend rule (UtxoViewpoint.ApplyTransaction -> applySpendUtxo).
 
 //verif:property C25
-//verif:bound output kind in {normal, coinbase, vote}; creation height and current height arbitrary below 2^62; one output per transaction; mainnet parameters
+//verif:bound output kind in {normal, coinbase, vote}; creation height and current height arbitrary below 2^62; transactions with 1 or 3 outputs of that kind, every output index checked; mainnet parameters
 //verif:assume the UTXO keeper treats a record as usable at height c iff ValidHeight <= c (account/utxo_keeper.go findUtxos and ReserveParticular; that comparison itself is checked by VerifC25KeeperFilter)
 //verif:assume heights stay below 2^62 (no uint64 wrap-around of height + pending period)
 //verif:outside the wallet database, the account filter (filterAccountUtxo) and the reorganisation walk that decides which blocks are detached
-//verif:obligation fn=VerifC25Created args=0;1;2 validate=30
+//verif:obligation fn=VerifC25Created args=0,1;1,1;2,1;0,3;1,3;2,3 validate=30
 //verif:obligation fn=VerifC25Restored args=1;2 validate=30
 
 import (
@@ -22,7 +22,7 @@ import (
 
 // verifC25Tx builds a one-input one-output transaction creating an output of
 // the given kind (0 normal, 1 coinbase, 2 vote).
-func verifC25Tx(kind int) *types.Tx {
+func verifC25Tx(kind int, nOut int) *types.Tx {
 	prog := []byte{0x51}
 	amount := verifU64("amount")
 	verifAssume(amount > 0 && amount < 1<<62)
@@ -38,7 +38,16 @@ func verifC25Tx(kind int) *types.Tx {
 	} else {
 		out = types.NewOriginalTxOutput(*consensus.BTMAssetID, amount, prog, nil)
 	}
-	return types.NewTx(types.TxData{Version: 1, Inputs: []*types.TxInput{in}, Outputs: []*types.TxOutput{out}})
+	outs := []*types.TxOutput{out}
+	for i := 1; i < nOut; i++ {
+		// further outputs of the same kind (an epoch-reward coinbase pays several validators)
+		if kind == 2 {
+			outs = append(outs, types.NewVoteOutput(*consensus.BTMAssetID, amount, []byte{0x51, byte(i)}, []byte{0xaa, 0xbb}, nil))
+		} else {
+			outs = append(outs, types.NewOriginalTxOutput(*consensus.BTMAssetID, amount, []byte{0x51, byte(i)}, nil))
+		}
+	}
+	return types.NewTx(types.TxData{Version: 1, Inputs: []*types.TxInput{in}, Outputs: outs})
 }
 
 func verifC25UtxoType(kind int) uint32 {
@@ -59,14 +68,14 @@ func verifC25ConsensusAccepts(id bc.Hash, utxoType uint32, h0, h uint64) bool {
 	return view.ApplyTransaction(&bc.Block{BlockHeader: &bc.BlockHeader{Height: h}}, spender) == nil
 }
 
-func VerifC25Created(kind int) {
+func VerifC25Created(kind int, nOut int) {
 	h0 := verifU64("createdAt")
 	cur := verifU64("current")
 	verifAssume(h0 < 1<<62 && cur < 1<<62 && cur >= h0)
-	tx := verifC25Tx(kind)
+	tx := verifC25Tx(kind, nOut)
 	utxos := txOutToUtxos(tx, h0)
-	verifAssert(len(utxos) == 1, "wallet-records-the-output")
-	u := utxos[0]
+	verifAssert(len(utxos) == nOut, "wallet-records-the-output")
+	u := utxos[verifChoice("outputIndex", nOut)]
 	verifObserveU64("validHeight", u.ValidHeight)
 	verifKnown("KF-C25-VOTEBOUNDARY", kind == 2 && h0 < 432000 && cur+1 >= 432000)
 	usable := u.ValidHeight <= cur
